@@ -3,9 +3,12 @@
 package store
 
 import (
+	"bytes"
 	"crypto/sha256"
 
 	"github.com/codenotary/immudb/embedded/ahtree"
+	"github.com/codenotary/immudb/embedded/appendable"
+	"github.com/codenotary/immudb/embedded/cache"
 	"github.com/codenotary/immudb/embedded/verifrt"
 	"github.com/codenotary/immudb/embedded/watchers"
 )
@@ -349,4 +352,122 @@ func VerifH_PrecommitBufferStep() {
 	}
 	_, _, _, _, err := b.readAhead(len(model))
 	verifrt.Assert(err != nil, "reading past the content is refused")
+}
+
+// VerifH_PerformPrecommitStep: one precommit from an arbitrary valid frontier state. The tx log
+// holds L arbitrary bytes below the precommit frontier (the records of earlier transactions)
+// and G bytes of garbage above it (a partially written, never precommitted record). The new
+// transaction (ne entries, symbolic keys / metadata / value digests, header version 0/1, values
+// embedded in the tx log or not) is serialized by the real performPrecommit:
+//  * it gets ID = precommitted+1 and PrevAlh = the precommitted Alh, and is refused when it
+//    would link to itself or later;
+//  * nothing below the old frontier changes; the record sits exactly at the old frontier (after
+//    the embedded values, if any) and the new frontier is its end = the end of the log;
+//  * the record read back by the real Tx.readFrom is the transaction (header incl. metadata,
+//    every entry's key / metadata / value length / offset / digest), embedded values sit where
+//    the entries point;
+//  * the ring buffer gets (id, Alh, offset, size) of the record; the precommit frontier moves
+//    by one and reports the record's Alh; the committed frontier and the commit log are untouched.
+func VerifH_PerformPrecommitStep() {
+	version, ne, k := verifrt.Param("version"), verifrt.Param("ne"), verifrt.Param("k")
+	embedded := verifrt.Param("embedded") == 1
+	L, G := verifrt.Param("L"), verifrt.Param("G")
+	f := verifFrontierState(k, k+1, cLogEntrySizeV2)
+	st := f.st
+	st.synced, st.maxActiveTransactions, st.embeddedValues = true, 8, embedded
+	pre := verifrt.Bytes("txlog", L+G)
+	f.txLog.b, f.txLog.off = append([]byte(nil), pre...), int64(L+G)
+	st.precommittedTxLogSize = int64(L)
+	st._txbs = make([]byte, 512)
+	blRoot := verifrt.Digest("blRoot")
+	verifrt.Stub("(*embedded/ahtree.AHtree).RootAt", func(t *ahtree.AHtree, n uint64) ([sha256.Size]byte, error) { return blRoot, nil })
+	var appended [][]byte
+	verifrt.Stub("(*embedded/ahtree.AHtree).Append", func(t *ahtree.AHtree, d []byte) (uint64, [sha256.Size]byte, error) {
+		appended = append(appended, append([]byte(nil), d...))
+		return 0, [sha256.Size]byte{}, nil
+	})
+	verifrt.Stub("(*embedded/cache.Cache).Put", func(c *cache.Cache, key interface{}, value interface{}) (interface{}, interface{}, error) {
+		return nil, nil, nil
+	})
+
+	tx := NewTx(ne, 4)
+	tx.header.Version, tx.header.NEntries = version, ne
+	if version == 1 && verifrt.Bool("hasTxMD") {
+		tx.header.Metadata = verifSymTxMetadata(0)
+	}
+	specs := make([]*EntrySpec, ne)
+	kls := []int{verifrt.Param("kl1"), verifrt.Param("kl2")}
+	for i := 0; i < ne; i++ {
+		e := tx.entries[i]
+		key := verifrt.Bytes("key", kls[i])
+		e.setKey(key)
+		if version == 1 && verifrt.Bool("hasKVMD") {
+			e.md = verifSymKVMetadata()
+		}
+		specs[i] = &EntrySpec{Key: key, Metadata: e.md}
+		if embedded {
+			specs[i].Value = verifrt.BytesUpTo("value", 2)
+			e.vLen = len(specs[i].Value)
+		} else {
+			e.vLen, e.vOff = int(verifrt.U32("vLen")), verifrt.I64("vOff")
+			verifrt.Assume(e.vLen >= 0)
+		}
+		e.hVal = verifrt.Digest("hVal")
+	}
+	verifrt.Assert(tx.BuildHashTree() == nil, "entry tree")
+	ts, blTxID := verifrt.I64("ts"), verifrt.U64("blTxID")
+	preAlh := st.inmemPrecommittedAlh
+	committedAlh := st.committedAlh
+
+	err := st.performPrecommit(tx, specs, ts, blTxID)
+
+	verifrt.Assert(st.committedTxID == f.c && st.committedAlh == committedAlh && len(f.cLog.ops) == 0, "committed frontier and commit log untouched")
+	for i := 0; i < L; i++ {
+		verifrt.Assert(f.txLog.b[i] == pre[i], "tx-log bytes below the precommit frontier unchanged")
+	}
+	if blTxID >= f.p+1 {
+		verifrt.Assert(err != nil, "a transaction linking to itself or later is refused")
+		verifrt.Assert(st.inmemPrecommittedTxID == f.p && st.inmemPrecommittedAlh == preAlh && st.precommittedTxLogSize == int64(L), "refused precommit leaves the frontier where it was")
+		verifrt.Reach("refused")
+		return
+	}
+	verifrt.Assert(err == nil, "precommit succeeds")
+	verifrt.Reach("precommitted")
+	h := tx.header
+	verifrt.Assert(h.ID == f.p+1 && h.PrevAlh == preAlh && h.Ts == ts && h.BlTxID == blTxID, "id is precommitted+1 and the tx chains to the precommitted Alh")
+	if blTxID > 0 {
+		verifrt.Assert(h.BlRoot == blRoot, "binary-linking root taken from the tree at blTxID")
+	}
+	alh := h.Alh()
+	verifrt.Assert(st.inmemPrecommittedTxID == f.p+1 && st.inmemPrecommittedAlh == alh, "precommit frontier moved by one and reports the tx Alh")
+	id, balh, off, size, err := st.cLogBuf.readAhead(k)
+	verifrt.Assert(err == nil && id == f.p+1 && balh == alh, "ring buffer holds (id, Alh) of the new tx")
+	verifrt.Assert(len(appended) == 1 && bytes.Equal(appended[0], alh[:]), "the Alh is appended to the hash tree")
+	prefix := 0
+	if embedded {
+		prefix = 2
+		for i := 0; i < ne; i++ {
+			prefix += len(specs[i].Value)
+		}
+	}
+	verifrt.Assert(off == int64(L+prefix), "record sits right at the old frontier (after the embedded values)")
+	verifrt.Assert(st.precommittedTxLogSize == off+int64(size) && int64(len(f.txLog.b)) == off+int64(size), "new frontier is the end of the record and of the log")
+	// read the record back with the real reader
+	r := appendable.NewReaderFrom(f.txLog, off, size)
+	tx2 := NewTx(ne, 4)
+	verifrt.Assert(tx2.readFrom(r, false) == nil, "the record is readable")
+	h2 := tx2.header
+	verifrt.Assert(h2.ID == h.ID && h2.Ts == h.Ts && h2.BlTxID == h.BlTxID && h2.BlRoot == h.BlRoot && h2.PrevAlh == h.PrevAlh && h2.Version == h.Version && h2.NEntries == h.NEntries && h2.Eh == h.Eh, "header read back")
+	verifrt.Assert(bytes.Equal(verifMDBytes(h2.Metadata), verifMDBytes(h.Metadata)), "tx metadata read back")
+	for i := 0; i < ne; i++ {
+		a, b := tx.entries[i], tx2.entries[i]
+		verifrt.Assert(bytes.Equal(a.key(), b.key()) && a.vLen == b.vLen && a.vOff == b.vOff && a.hVal == b.hVal, "entry read back")
+		verifrt.Assert(bytes.Equal(verifKVMDBytes(a.md), verifKVMDBytes(b.md)), "entry metadata read back")
+		if embedded && len(specs[i].Value) > 0 {
+			verifrt.Assert(a.vOff >= int64(L+2) && a.vOff+int64(a.vLen) <= off, "embedded value sits between the old frontier and the record")
+			for j := 0; j < len(specs[i].Value); j++ {
+				verifrt.Assert(f.txLog.b[a.vOff+int64(j)] == specs[i].Value[j], "embedded value bytes")
+			}
+		}
+	}
 }
